@@ -49,6 +49,7 @@ fn rerun(w: &Value) -> Option<Outcome> {
         "c11_gen" => Some(c11::run_gen(w["input"]["seed"].as_u64()?)),
         "c11_spans" => Some(c11::run(w["input"]["source"].as_str()?)),
         "c08_span" => Some(c08::run(w["input"]["grammar"].as_str()?, w["input"]["input"].as_str()?)),
+        "c17_costs" => Some(c17::run_costs(w["input"]["grammar"].as_str()?, &w["input"]["costs"].as_array()?.iter().map(|x| x.as_u64().unwrap_or(1) as u8).collect::<Vec<u8>>())),
         "c17_sets" => Some(c17::run(w["input"]["grammar"].as_str()?, w["input"]["what"].as_str()?)),
         "c16_table" => Some(c16::run(w["input"]["grammar"].as_str()?)),
         "c19_wrap" => Some(c19::run_wrap(w["input"]["text"].as_str()?, w["input"]["start"].as_u64()? as usize, w["input"]["end"].as_u64()? as usize)),
@@ -76,7 +77,7 @@ fn search(unit: &str, tag: &str, tier: &str) -> Option<Value> {
         "c10_grammar" | "c10_validate" => if tag.starts_with("C15") { c15::search(tag, tier) } else { c10::search(tag, tier) },
         "c03_expect" => c03::search(tag, tier),
         "c03_resolve" | "c03_prodprec" => c03r::search(tag, tier),
-        "c17_firsts" | "c17_follows" | "c17_haspath" => c17::search(unit, tag, tier),
+        "c17_firsts" | "c17_follows" | "c17_haspath" | "c17_costs" => c17::search(unit, tag, tier),
         "c16_new" | "c16_codec" => c16::search(tag, tier),
         "c20_grammar" | "c20_states" => c20::search(tag, tier),
         _ => None,
